@@ -336,6 +336,383 @@ def run_twin_pairs(rows, pairs):
 
 
 # ---------------------------------------------------------------------------------------------------
+# oracle D: the default spelled out vs the argument omitted
+# ---------------------------------------------------------------------------------------------------
+def given_of(P, rows, case):
+    pks = P.pk_names(rows[case["row"]]["sig"])
+    g = dict(zip(pks, case["pos"]))
+    g.update({k: v for k, v in case["kws"]})
+    return g
+
+
+def norm_block(block):
+    """emitted lines with whole floats written like the integer (544.0 -> 544): the same constant in the C++ contexts
+    the emitter writes arguments into; never makes two different bindings equal"""
+    return [re.sub(r"(?<![\w.])(\d+)\.0(?![\w.])", r"\1", ln) for ln in block]
+
+
+def default_twins(ctx, P, rows, findings, cases, res, strict_only=False):
+    """for every transfer case in which some parameter carries its own default spelled out: the partner is the case
+    with exactly that argument left out (same spelling style where it exists, else all-keyword)."""
+    index = {}
+    for i, c in enumerate(cases):
+        g = given_of(P, rows, c)
+        index.setdefault((c["row"], bool(c["pos"]), frozenset(g.items())), i)
+    stat = {"pairs": 0, "explicit_rejected": 0, "omitted_rejected": 0, "same_firmware": 0, "no_partner": 0,
+            "by_default_kind": {}, "explicit_none_positional": 0, "explicit_none_keyword": 0}
+    for i, c in enumerate(cases):
+        if P.covered_by(findings, c):
+            continue
+        sig = rows[c["row"]]["sig"]
+        pks = P.pk_names(sig)
+        g = given_of(P, rows, c)
+        for sp in sig:
+            p = sp[0]
+            if not sp[2] or p not in g or p not in rows[c["row"]]["device_params"]:
+                continue
+            dl = default_literal(sp)
+            if dl is None or g[p] != dl:
+                continue
+            rest = frozenset((k, v) for k, v in g.items() if k != p)
+            j = index.get((c["row"], bool(c["pos"]), rest))
+            if j is None:
+                j = index.get((c["row"], False, rest))
+            if j is None:
+                stat["no_partner"] += 1
+                continue
+            stat["pairs"] += 1
+            dk = "None" if dl == "None" else ("falsy" if dl in ("0", "0.0", "False", '""') else "other")
+            stat["by_default_kind"][dk] = stat["by_default_kind"].get(dk, 0) + 1
+            if dl == "None":
+                positional = p in pks and pks.index(p) < len(c["pos"])
+                stat["explicit_none_positional" if positional else "explicit_none_keyword"] += 1
+            a, b = res[i], res[j]
+            if a["status"] != "ok":
+                stat["explicit_rejected"] += 1
+                continue
+            if b["status"] != "ok":
+                stat["omitted_rejected"] += 1
+                continue
+            if a["sha"] == b["sha"]:
+                stat["same_firmware"] += 1
+                continue
+            if norm_block(a["block"]) == norm_block(b["block"]):
+                # `100.0` for `100`: the default is a float and was spelled as one; the same number in C++
+                stat["same_up_to_number_spelling"] = stat.get("same_up_to_number_spelling", 0) + 1
+                continue
+            ctx.fail(f"{c['row']}: `{fmt_call(a)}` spells out the default {p}={dl}; Python binds it to exactly the parameter values of "
+                     f"`{fmt_call(b)}`, but the transpiler neither rejects it nor emits the same firmware",
+                     {"engine": "default", "row": c["row"], "param": p, "default": dl, "a": c, "b": cases[j]},
+                     {"python_binds_both_calls_to": {k: (v if k != p else dl) for k, v in g.items()}, "firmware_of_the_call_without_the_argument": b["block"]},
+                     {"firmware_of_the_call_with_the_default_spelled_out": a["block"], "script_a": a["script"], "script_b": b["script"]},
+                     key="emit-default:" + c["row"] + ":" + p)
+    return stat
+
+
+# ---------------------------------------------------------------------------------------------------
+# oracle L: the ABSOLUTE places of the constructor arguments of the LCD driver objects on the compiled firmware
+# ---------------------------------------------------------------------------------------------------
+LCD_PIN_KEYS = ("rs", "en", "d4", "d5", "d6", "d7")
+
+
+def _num(v):
+    if isinstance(v, dict) and "n" in v:
+        f = Fraction(v["n"][0], v["n"][1])
+        return int(f) if f.denominator == 1 else float(f)
+    return v
+
+
+def lcd_want(host):
+    """what Python binds (attributes of the real host object) in the vocabulary of the mock's LNEW / LB / PM events"""
+    dev = host["state"]["dev"]
+    if dev.get("is_i2c") not in (None, {"n": [0, 1]}):
+        return {"kind": "i2c", "addr": _num(dev.get("i2c_addr")), "cols": _num(dev.get("cols")), "rows": _num(dev.get("rows"))}
+    pins = dev.get("pins") or {}
+    w = {"kind": "parallel"}
+    for k in LCD_PIN_KEYS + ("rw",):
+        w[k] = _num(pins.get(k))
+    w["cols"], w["rows"] = _num(dev.get("cols")), _num(dev.get("rows"))
+    w["backlight_pin"] = _num(dev.get("backlight_pin"))
+    return w
+
+
+def lcd_got(events, n):
+    """per LCD object (creation order) what the firmware handed to the driver: constructor overload resolved by g++
+    against the mock LiquidCrystal / LiquidCrystal_I2C, begin(cols, rows), the pin driven as backlight"""
+    objs, order = {}, []
+    cur = None
+    for e in events:
+        t = e.split()
+        if t[0] == "LNEW":
+            i = int(t[1])
+            order.append(i)
+            if t[2] == "i2c":
+                objs[i] = {"kind": "i2c", "addr": int(t[3]), "cols": int(t[4]), "rows": int(t[5])}
+            elif t[2] == "parallel":
+                o = {"kind": "parallel"}
+                o.update({k: int(x) for k, x in zip(LCD_PIN_KEYS, t[3:9])})
+                o["rw"] = int(t[10]) if len(t) > 10 and t[9] == "rw" else None
+                o["backlight_pin"] = None
+                objs[i] = o
+            else:
+                objs[i] = {"kind": t[2], "raw": e}
+        elif t[0] == "LB":
+            cur = int(t[1])
+            if cur in objs and objs[cur]["kind"] == "parallel":
+                objs[cur]["cols"], objs[cur]["rows"] = int(t[3]), int(t[4])
+        elif t[0] == "PM" and cur in objs and t[2] == "1" and objs[cur]["kind"] == "parallel":
+            objs[cur]["backlight_pin"] = int(t[1])
+    if len(order) != n:
+        return None
+    return [objs[i] for i in order]
+
+
+def lcd_wiring(rows, kwlists):
+    """kwlists: [[[name, src], ...], ...] = LCD(...) constructor calls -> [{"call", "want", "got"}]
+    want None: the host class raises; got 'rejected': the transpiler raises; got None: not observed"""
+    cases = [{"row": "LCD.__init__", "pos": [], "kws": kw} for kw in kwlists]
+    rs = C.run_impl("c08_emit_impl.py", {"op": "calls", "cases": cases}) if cases else []
+    out = []
+    live = []
+    for i, (kw, r) in enumerate(zip(kwlists, rs)):
+        o = {"call": "LCD(" + ", ".join(f"{k}={v}" for k, v in kw) + ")", "want": None, "got": None}
+        if "exc" not in r["host"]:
+            o["want"] = lcd_want(r["host"])
+        if r["status"] != "ok":
+            o["got"] = "rejected"
+        elif o["want"] is not None:
+            live.append(i)
+        out.append(o)
+    chunks = [live[i:i + 10] for i in range(0, len(live), 10)]
+    srcs = ["\n".join(f"l{j} = {out[i]['call']}" for j, i in enumerate(ch)) + "\n" for ch in chunks]
+    tr = fw.transpile_many(srcs)
+    ok = [k for k, t in enumerate(tr) if t["ok"]]
+    runs = fw.run_sketches([{"cpp": tr[k]["cpp"], "input": "", "loops": 0} for k in ok])
+    for k, r in zip(ok, runs):
+        if not r["compiled"] or r["rc"] != 0:
+            for i in chunks[k]:
+                out[i]["got"] = {"kind": "does-not-compile", "log": (r.get("compile_log") or r.get("stderr") or "")[-300:]} if len(chunks[k]) == 1 else None
+            continue
+        got = lcd_got(r["events"], len(chunks[k]))
+        if got is not None:
+            for i, g in zip(chunks[k], got):
+                out[i]["got"] = g
+    return out
+
+
+def lcd_cases(P, rng, thorough):
+    """parallel LCD with every subset of {rw, backlight_pin, cols, rows} (rw also as the falsy pin 0), I2C LCD with every
+    subset of {cols, rows}; each in signature order, reversed, sorted by name and seeded shuffles"""
+    base = [[k, P.literal("LCD.__init__", k)] for k in LCD_PIN_KEYS]
+    sets = []
+    for n in range(5):
+        for sub in itertools.combinations(("cols", "rows", "rw", "backlight_pin"), n):
+            sets.append(base + [[k, P.literal("LCD.__init__", k)] for k in sub])
+            if "rw" in sub:
+                sets.append(base + [[k, "0" if k == "rw" else P.literal("LCD.__init__", k)] for k in sub])
+    for n in range(3):
+        for sub in itertools.combinations(("cols", "rows"), n):
+            sets.append([["i2c_addr", P.literal("LCD.__init__", "i2c_addr")]] + [[k, P.literal("LCD.__init__", k)] for k in sub])
+    out = []
+    for kw in sets:
+        orders = [kw, kw[::-1], sorted(kw)]
+        for _ in range(4 if thorough else 1):
+            sh = list(kw)
+            rng.shuffle(sh)
+            orders.append(sh)
+        seen = []
+        for o in orders:
+            if o not in seen:
+                seen.append(o)
+        out += seen
+    return out
+
+
+def run_lcd_wiring(ctx, P, rows, rng, thorough):
+    kwlists = lcd_cases(P, rng, thorough)
+    outs = lcd_wiring(rows, kwlists)
+    stat = {"calls": len(outs), "host_raises": 0, "rejected": 0, "compared": 0, "not_observed": 0, "with_rw": 0, "with_backlight_pin": 0, "i2c": 0}
+    for kw, o in zip(kwlists, outs):
+        names = [k for k, _ in kw]
+        if o["want"] is None:
+            stat["host_raises"] += 1
+            continue
+        if o["got"] == "rejected":
+            stat["rejected"] += 1
+            continue
+        if o["got"] is None:
+            stat["not_observed"] += 1
+            continue
+        stat["compared"] += 1
+        stat["with_rw"] += "rw" in names
+        stat["with_backlight_pin"] += "backlight_pin" in names
+        stat["i2c"] += "i2c_addr" in names
+        if o["got"] != o["want"]:
+            diff = {k: {"python": o["want"].get(k), "firmware": o["got"].get(k)} for k in sorted(set(o["want"]) | set(o["got"])) if o["want"].get(k) != o["got"].get(k)}
+            ctx.fail(f"LCD.__init__: `{o['call']}` - the driver object of the compiled firmware is constructed with other values than Python binds: {diff}",
+                     {"engine": "lcd-pins", "row": "LCD.__init__", "kwargs": kw}, {"python_binds": o["want"]}, {"firmware_driver_receives": o["got"], "differences": diff},
+                     key="emit-lcd-wiring:" + "+".join(sorted(set(names) - set(LCD_PIN_KEYS))))
+    if stat["not_observed"]:
+        ctx.disagree("emitter stage, oracle L: accepted LCD declarations whose sketch did not compile/run under the mock core", None, None, stat)
+    return stat
+
+
+# ---------------------------------------------------------------------------------------------------
+# oracle W: constructor arguments of the other devices, read off the compiled firmware by the ROLE a pin plays
+# ---------------------------------------------------------------------------------------------------
+def _last(events, tag, pred=lambda t: True):
+    hit = None
+    for e in events:
+        t = e.split()
+        if t[0] == tag and pred(t):
+            hit = t
+    return hit
+
+
+def _w_ultra(dev, ev, pre, k):
+    dw = next((e.split() for e in ev if e.startswith("DW ")), None)
+    pi = _last(ev, "PI")
+    want = {"trig": _num(dev.get("trig")), "echo": _num(dev.get("echo")), "pinmode_of_trig": 1, "pinmode_of_echo": 0}
+    if dw is None or pi is None:
+        return want, None
+    got = {"trig": int(dw[1]), "echo": int(pi[1])}
+    for role in ("trig", "echo"):       # the pin Python binds as trig must be the one configured as OUTPUT, echo as INPUT
+        t = _last(list(pre) + list(ev), "PM", lambda t: t[1] == str(want[role]))
+        got["pinmode_of_" + role] = None if t is None else int(t[2])
+    return want, got
+
+
+def _w_servo(dev, ev, pre, k):
+    sva = [e.split() for e in pre if e.startswith("SVA ")]
+    want = {"pin": _num(dev.get("pin")), "min_pulse_us": _num(dev.get("_min_pulse")), "max_pulse_us": _num(dev.get("_max_pulse"))}
+    if k is None or k >= len(sva):
+        return want, None
+    t = sva[k]
+    return want, {"pin": int(t[1]), "min_pulse_us": float(t[2]), "max_pulse_us": float(t[3])}
+
+
+def _w_rgb(dev, ev, pre, k):
+    pins = [_num(x) for x in (dev.get("_pins") or [])]
+    got = {}
+    for name, val in (("red_pin", "10"), ("green_pin", "20"), ("blue_pin", "30")):
+        t = _last(ev, "AW", lambda t: t[2] == val)
+        if t is None:
+            return dict(zip(("red_pin", "green_pin", "blue_pin"), pins)), None
+        got[name] = int(t[1])
+    return dict(zip(("red_pin", "green_pin", "blue_pin"), pins)), got
+
+
+def _w_motor(dev, ev, pre, k):
+    pins = [_num(x) for x in (dev.get("pins") or [])]
+    hi, lo, aw = _last(ev, "DW", lambda t: t[2] == "1"), _last(ev, "DW", lambda t: t[2] == "0"), _last(ev, "AW")
+    want = dict(zip(("in1", "in2", "enable"), pins))
+    if hi is None or lo is None or aw is None:
+        return want, None
+    return want, {"in1": int(hi[1]), "in2": int(lo[1]), "enable": int(aw[1])}
+
+
+def _w_buzzer(dev, ev, pre, k):
+    t = _last(ev, "T")
+    want = {"pin": _num(dev.get("pin")), "default_frequency": _num(dev.get("default_frequency"))}
+    return want, None if t is None else {"pin": int(t[1]), "default_frequency": float(t[2])}
+
+
+WIRING = {
+    "Ultrasonic.__init__": ("x{j} = d{j}.measure_distance()", _w_ultra),
+    "Servo.__init__": ("d{j}.write(45)", _w_servo),
+    "RGBLed.__init__": ("d{j}.set_color(10, 20, 30)", _w_rgb),
+    "DCMotor.__init__": ("d{j}.set_speed(0.5)", _w_motor),
+    "Buzzer.__init__": ("d{j}.beep()", _w_buzzer),
+}
+
+
+def wiring_run(rows, cases):
+    rs = C.run_impl("c08_emit_impl.py", {"op": "calls", "cases": cases}) if cases else []
+    out = [{"call": fmt_call(r), "want": None, "got": None, "dev": None} for r in rs]
+    live = []
+    for i, r in enumerate(rs):
+        if "exc" in r["host"] or not isinstance(r["host"]["state"].get("dev"), dict):
+            continue
+        out[i]["dev"] = r["host"]["state"]["dev"]
+        out[i]["want"] = WIRING[cases[i]["row"]][1](out[i]["dev"], [], [], None)[0]
+        if r["status"] != "ok":
+            out[i]["got"] = "rejected"
+        else:
+            live.append(i)
+    chunks = [live[i:i + 12] for i in range(0, len(live), 12)]
+    srcs = []
+    for ch in chunks:
+        lines = ["mon = SerialMonitor(115200)"]
+        for j, i in enumerate(ch):
+            lines.append(call_text(rows, cases[i], "dev").replace("dev =", f"d{j} ="))
+        for j, i in enumerate(ch):
+            lines += [f'mon.write("##case {j}")', WIRING[cases[i]["row"]][0].format(j=j)]
+        lines.append('mon.write("##case end")')
+        srcs.append("\n".join(lines) + "\n")
+    tr = fw.transpile_many(srcs)
+    ok = [k for k, t in enumerate(tr) if t["ok"]]
+    runs = fw.run_sketches([{"cpp": tr[k]["cpp"], "input": "pi 27 580\npi 28 580\n", "loops": 0} for k in ok])
+    for k, r in zip(ok, runs):
+        if not r["compiled"] or r["rc"] != 0:
+            continue
+        pre = []
+        for e in r["events"]:
+            if e.startswith("S ##case "):
+                break
+            pre.append(e)
+        cs = fw.split_cases(r["events"])
+        n_servo = 0
+        for j, i in enumerate(chunks[k]):
+            kk = None
+            if cases[i]["row"] == "Servo.__init__":
+                kk, n_servo = n_servo, n_servo + 1
+            ev = cs.get(str(j))
+            if ev is None:
+                continue
+            out[i]["got"] = WIRING[cases[i]["row"]][1](out[i]["dev"], ev, pre, kk)[1]
+    return out
+
+
+def run_wiring(ctx, P, rows, rng, thorough):
+    cases = []
+    cap = 400 if thorough else 20
+    for name in WIRING:
+        if name not in rows:
+            continue
+        sig = rows[name]["sig"]
+        shapes = P.accepted_shapes(sig)
+        if len(shapes) > cap:
+            shapes = [shapes[0], shapes[-1]] + rng.sample(shapes[1:-1], cap - 2)
+        for npos, kwl in shapes:
+            cases.append(P.make_case(name, sig, npos, kwl))
+            if len(kwl) >= 2:
+                cases.append(P.make_case(name, sig, npos, kwl[::-1]))
+                sh = list(kwl)
+                rng.shuffle(sh)
+                if sh != kwl and sh != kwl[::-1]:
+                    cases.append(P.make_case(name, sig, npos, sh))
+    outs = wiring_run(rows, cases)
+    stat = {"calls": len(cases), "host_raises": 0, "rejected": 0, "compared": 0, "not_observed": 0, "per_row": {}}
+    for c, o in zip(cases, outs):
+        if o["want"] is None:
+            stat["host_raises"] += 1
+        elif o["got"] == "rejected":
+            stat["rejected"] += 1
+        elif o["got"] is None:
+            stat["not_observed"] += 1
+        else:
+            stat["compared"] += 1
+            stat["per_row"][c["row"]] = stat["per_row"].get(c["row"], 0) + 1
+            diff = {k: {"python": o["want"][k], "firmware": o["got"].get(k)} for k in o["want"]
+                    if o["got"].get(k) is None or abs(float(o["want"][k]) - float(o["got"][k])) > 1e-9 * max(1.0, abs(float(o["want"][k])))}
+            if diff:
+                ctx.fail(f"{c['row']}: `{o['call']}` - on the compiled firmware the constructor arguments play other roles than the parameters Python binds them to: {diff}",
+                         {"engine": "wiring", "row": c["row"], "pos": c["pos"], "kws": c["kws"]}, {"python_binds": o["want"]},
+                         {"firmware_uses": o["got"], "differences": diff}, key="emit-wiring:" + c["row"])
+    return stat
+
+
+# ---------------------------------------------------------------------------------------------------
 def run(ctx, P, rows, findings, info):
     rng = ctx.rng
     thorough = ctx.tier == "thorough"
@@ -436,6 +813,19 @@ def run(ctx, P, rows, findings, info):
                 continue
             if (vecs[i] is None) != (r["status"] != "ok") and r["status"] == "ok":
                 ctx.disagree(f"emitter stage of row {c['row']}: the model rejects a call the real transpiler accepts", c, None, fmt_call(r))
+    # ---------------- oracle D: a default spelled out (explicit None for an Optional parameter above all) vs the same call
+    # with the argument left out.  Python binds both calls to the very same parameter values, so the transpiler must
+    # reject the explicit spelling or emit the firmware of the omitted one.
+    dstat = default_twins(ctx, P, rows, findings, cases, res)
+    dist["default_spelled_out"] = dstat
+
+    # ---------------- oracle L: LCD driver objects on the compiled firmware vs the pins Python binds
+    if "LCD.__init__" in rows:
+        dist["lcd_wiring"] = run_lcd_wiring(ctx, P, rows, rng, thorough)
+
+    # ---------------- oracle W: constructor arguments of the other devices by the role they play on the compiled firmware
+    dist["constructor_wiring"] = run_wiring(ctx, P, rows, rng, thorough)
+
     dist["transfer_calls_inside_guard"] = n_inside
     dist["transfer_host_distinguished_classes_checked"] = n_host_pairs
     dist["model_vector_classes"] = n_model_pairs
@@ -464,7 +854,8 @@ def run(ctx, P, rows, findings, info):
     dist["constants_values"] = per_value
     if kst["compile_failures"]:
         ctx.disagree("emitter stage, oracle K: a batch of accepted one-call scripts did not compile/run under the mock core", None, None, kst)
-    return {"evaluations": len(cases) + 2 * n_cmp, "distribution": dist,
+    n_extra = dstat["pairs"] + dist.get("lcd_wiring", {}).get("compared", 0) + dist["constructor_wiring"]["compared"]
+    return {"evaluations": len(cases) + 2 * n_cmp + n_extra, "distribution": dist,
             "samples": [res[0]["script"], single_script(rows, pairs[0]["twin"]) if pairs else ""]}
 
 
@@ -480,6 +871,30 @@ def replay(P, data):
         bad = (rs[0]["status"] == rs[1]["status"] == "ok" and rs[0]["sha"] == rs[1]["sha"]
                and "exc" not in rs[0]["host"] and "exc" not in rs[1]["host"] and rs[0]["host"] != rs[1]["host"])
         print("verdict:", "same sketch, host distinguishes" if bad else "ok")
+        return 1 if bad else 0
+    if case.get("engine") == "default":
+        rs = C.run_impl("c08_emit_impl.py", {"op": "calls", "cases": [case["a"], case["b"]], "no_host": True})
+        for r in rs:
+            print("script:\n" + r["script"] + "status: " + r["status"] + "  sketch id: " + str(r.get("sha")) + "\nemitted: " + json.dumps(r.get("block")))
+        bad = rs[0]["status"] == rs[1]["status"] == "ok" and rs[0]["sha"] != rs[1]["sha"] and norm_block(rs[0]["block"]) != norm_block(rs[1]["block"])
+        print("verdict:", f"the default {case['param']}={case['default']} spelled out is accepted and gives another firmware than the call without it" if bad else "ok")
+        return 1 if bad else 0
+    if case.get("engine") == "lcd-pins":
+        out = lcd_wiring(rows, [case["kwargs"]])[0]
+        print("call    :", out["call"])
+        print("python  :", out["want"])
+        print("firmware:", out["got"])
+        bad = out["got"] is not None and out["got"] != "rejected" and out["got"] != out["want"]
+        print("verdict:", "the driver object is constructed with other pins than Python binds" if bad else "ok")
+        return 1 if bad else 0
+    if case.get("engine") == "wiring":
+        o = wiring_run(rows, [{"row": case["row"], "pos": case["pos"], "kws": case["kws"]}])[0]
+        print("call    :", o["call"])
+        print("python  :", o["want"])
+        print("firmware:", o["got"])
+        bad = isinstance(o["got"], dict) and o["want"] is not None and any(
+            o["got"].get(k) is None or abs(float(o["want"][k]) - float(o["got"][k])) > 1e-9 * max(1.0, abs(float(o["want"][k]))) for k in o["want"])
+        print("verdict:", "constructor arguments reach other roles than Python binds" if bad else "ok")
         return 1 if bad else 0
     if case.get("engine") == "constants":
         pr = dict(case)
